@@ -278,9 +278,15 @@ def _uf_apply(fname, args):
         zero = Q.lift(0)
         half = z3.RealVal("1/2")
         a = args[0]
-        ge0 = bor(zero._lt(a), a._eq(zero))
-        le0 = bor(a._lt(zero), a._eq(zero))
-        for ax in (z3.And(v >= 0, v <= 1), bz(bor(bnot(ge0), v >= half)), bz(bor(bnot(le0), v <= half))):
+        from .scalar import isc as _isc
+        if a.rn is not None and _isc(a.n) and a.n >= 0 and _isc(a.d) and a.d > 0:
+            # |x| in radical form is non-negative by construction: keep the feasibility solver linear
+            axs = (z3.And(v >= 0, v <= 1), bz(bor(a.nan, v >= half)))
+        else:
+            ge0 = bor(zero._lt(a), a._eq(zero))
+            le0 = bor(a._lt(zero), a._eq(zero))
+            axs = (z3.And(v >= 0, v <= 1), bz(bor(bnot(ge0), v >= half)), bz(bor(bnot(le0), v <= half)))
+        for ax in axs:
             eng.assumptions_uf.append(ax)
             if eng._solver is not None:
                 eng._solver.add(ax)
